@@ -116,7 +116,7 @@ def _norm(e):
 
 class Store:
     """conjunction of: sym in [lo,hi]; list of Aff >= 0 (relational); Aff != 0 (few)"""
-    __slots__ = ('ivl', 'rel', 'relset', 'neq', 'bottom')
+    __slots__ = ('ivl', 'rel', 'relset', 'neq', 'bottom', 'cache', 'byterms')
 
     def __init__(self):
         self.ivl = {}
@@ -124,6 +124,8 @@ class Store:
         self.relset = set()
         self.neq = []
         self.bottom = False
+        self.cache = {}
+        self.byterms = {}
 
     def copy(self):
         s = Store.__new__(Store)
@@ -132,7 +134,30 @@ class Store:
         s.relset = set(self.relset)
         s.neq = list(self.neq)
         s.bottom = self.bottom
+        s.cache = self.cache        # shared until either side learns something new
+        s.byterms = dict(self.byterms)
         return s
+
+    def _dirty(self):
+        self.cache = {}
+
+    def set_rel(self, rel):
+        """replace the relational part (used by joins)"""
+        self.rel = []
+        self.relset = set()
+        self.byterms = {}
+        self.cache = {}
+        for e in rel:
+            k = e.key()
+            old = self.byterms.get(k[1])
+            if old is not None:
+                if old.c <= e.c:
+                    continue
+                self.relset.discard(old.key())
+                self.rel = [x for x in self.rel if x is not old]
+            self.byterms[k[1]] = e
+            self.relset.add(k)
+            self.rel.append(e)
 
     # ---- intervals -----------------------------------------------------------
     def declare(self, sym, lo, hi):
@@ -188,13 +213,24 @@ class Store:
                 self.bottom = True
                 return False
             self.ivl[s] = (a, b)
+            self.cache = {}
             if propagate:
                 return self._propagate({s})
             return True
         k = e.key()
         if k not in self.relset:
+            tk = k[1]
+            old = self.byterms.get(tk)
+            if old is not None:
+                if old.c <= e.c:
+                    return True          # an at-least-as-tight constraint over the same terms is present
+                # e is tighter: replace the dominated one
+                self.relset.discard(old.key())
+                self.rel = [x for x in self.rel if x is not old and x.key() != old.key()]
+            self.byterms[tk] = e
             self.relset.add(k)
             self.rel.append(e)
+            self.cache = {}
         if propagate:
             return self._propagate(set(e.t), first=e)
         return True
@@ -231,6 +267,7 @@ class Store:
             else:
                 return True
         self.neq.append(e)
+        self.cache = {}
         return True
 
     def _propagate(self, dirty, first=None, rounds=12):
@@ -238,6 +275,7 @@ class Store:
         if not self.rel:
             return True
         ivl = self.ivl
+        self.cache = {}
         for _ in range(rounds):
             nd = set()
             for e in self.rel:
@@ -307,10 +345,47 @@ class Store:
             return True
         if hi < 0:
             return False
-        if e.key() in self.relset:
+        k = e.key()
+        if k in self.relset:
             return True
-        # infeasibility of store /\ (-e - 1 >= 0)
-        return self._fm_infeasible(e.neg().sub(1))
+        hit = self.cache.get(k)
+        if hit is not None:
+            return hit
+        dom = self.byterms.get(k[1])
+        if dom is not None and dom.c <= e.c:
+            self.cache[k] = True
+            return True
+        # e = c + (e - c) with c >= 0 a stored constraint and (e - c) >= 0 by intervals
+        et = e.t
+        ivl = self.ivl
+        for c in self.rel:
+            ct = c.t
+            shared = False
+            for z in ct:
+                if z in et:
+                    shared = True
+                    break
+            if not shared:
+                continue
+            # lower bound of e - c
+            lo2 = e.c - c.c
+            ok = True
+            for z, kz in et.items():
+                kk = kz - ct.get(z, 0)
+                if kk:
+                    a, b = ivl[z]
+                    lo2 += kk * a if kk > 0 else kk * b
+            for z, kz in ct.items():
+                if z not in et:
+                    a, b = ivl[z]
+                    lo2 += (-kz) * a if kz < 0 else (-kz) * b
+            if lo2 >= 0:
+                self.cache[k] = True
+                return True
+        # no relational constraint mentions e's symbols: the interval answer is exact
+        r = self._fm_infeasible(e.neg().sub(1))
+        self.cache[k] = r
+        return r
 
     def entails_eq0(self, e):
         return self.entails_ge0(e) and self.entails_ge0(e.neg())
@@ -384,72 +459,94 @@ class Store:
 
 
 def fm_infeasible(cons, syms):
+    """rows are (const, {sym: coef}); Fourier-Motzkin with integer tightening; True = infeasible"""
     cur = {}
     for e in cons:
-        e = _norm(e)
-        if not e.t:
+        t = e.t
+        if not t:
             if e.c < 0:
                 return True
             continue
-        cur[e.key()] = e
+        g = 0
+        for k in t.values():
+            g = gcd(g, k if k > 0 else -k)
+        c = e.c
+        if g > 1:
+            t = {s_: k // g for s_, k in t.items()}
+            c = c // g
+        tk = tuple(sorted(t.items()))
+        o = cur.get(tk)
+        if o is None or c < o[0]:
+            cur[tk] = (c, t)
     syms = set(syms)
     while syms:
-        # choose symbol minimising pos*neg
+        occ = {}
+        for (c, t) in cur.values():
+            for s_, k in t.items():
+                pn = occ.get(s_)
+                if pn is None:
+                    occ[s_] = [1, 0] if k > 0 else [0, 1]
+                elif k > 0:
+                    pn[0] += 1
+                else:
+                    pn[1] += 1
         best = None
         bestcost = None
-        occ = {}
-        for e in cur.values():
-            for s, k in e.t.items():
-                p, n = occ.get(s, (0, 0))
-                if k > 0:
-                    occ[s] = (p + 1, n)
-                else:
-                    occ[s] = (p, n + 1)
-        live = [s for s in syms if s in occ]
-        if not live:
-            break
-        for s in live:
-            p, n = occ[s]
-            cost = p * n - p - n
+        for s_ in syms:
+            pn = occ.get(s_)
+            if pn is None:
+                continue
+            cost = pn[0] * pn[1] - pn[0] - pn[1]
             if bestcost is None or cost < bestcost:
-                best, bestcost = s, cost
-        s = best
-        syms.discard(s)
+                best, bestcost = s_, cost
+        if best is None:
+            break
+        x = best
+        syms.discard(x)
         pos = []
         neg = []
         rest = {}
-        for k_, e in cur.items():
-            k = e.t.get(s)
+        for tk, row in cur.items():
+            k = row[1].get(x)
             if k is None:
-                rest[k_] = e
+                rest[tk] = row
             elif k > 0:
-                pos.append(e)
+                pos.append(row)
             else:
-                neg.append(e)
-        for p in pos:
-            kp = p.t[s]
-            for n in neg:
-                kn = -n.t[s]
-                # kn*p + kp*n eliminates s
-                r = p.mul(kn).add(n.mul(kp))
-                r = _norm(r)
-                if not r.t:
-                    if r.c < 0:
-                        return True
-                    continue
-                rest[r.key()] = r
-                if len(rest) > FM_CAP:
-                    return False
+                neg.append(row)
+        if pos and neg:
+            for (pc, pt) in pos:
+                kp = pt[x]
+                for (nc, nt) in neg:
+                    kn = -nt[x]
+                    # kn*p + kp*n
+                    t = {}
+                    for s_, k in pt.items():
+                        if s_ != x:
+                            t[s_] = k * kn
+                    for s_, k in nt.items():
+                        if s_ != x:
+                            v = t.get(s_, 0) + k * kp
+                            if v:
+                                t[s_] = v
+                            else:
+                                t.pop(s_, None)
+                    c = pc * kn + nc * kp
+                    if not t:
+                        if c < 0:
+                            return True
+                        continue
+                    g = 0
+                    for k in t.values():
+                        g = gcd(g, k if k > 0 else -k)
+                    if g > 1:
+                        t = {s_: k // g for s_, k in t.items()}
+                        c = c // g
+                    tk = tuple(sorted(t.items()))
+                    o = rest.get(tk)
+                    if o is None or c < o[0]:
+                        rest[tk] = (c, t)
+                        if len(rest) > FM_CAP:
+                            return False
         cur = rest
-        # drop constraints dominated by same-terms-larger-constant
-        byterms = {}
-        for e in cur.values():
-            tk = e.key()[1]
-            o = byterms.get(tk)
-            if o is None or e.c < o.c:
-                byterms[tk] = e
-        cur = {e.key(): e for e in byterms.values()}
-    for e in cur.values():
-        if not e.t and e.c < 0:
-            return True
     return False
